@@ -35,6 +35,8 @@ pub fn compile_and_print<TCompilationProfile: CompilationProfile>(
         }
     };
     let result = WithDuration::new(|| compile::<TCompilationProfile>(&mut state));
+    #[cfg(isographlabs_isograph_verif)]
+    pico::verif::dump_memo_identities_to_env_file();
     print_result(&state.db, result)
 }
 
